@@ -78,6 +78,8 @@ inductive S
   | strNum (fmt : IntFmt)
   /-- `type: string, format: float | double` -/
   | strFloat (f32 : Bool)
+  /-- `type: string, format: byte | binary`: typed `Vec<u8>` without a base64 adapter (finding F02-10) -/
+  | strBytes
 /-- properties in the generator's iteration order (BTreeMap order of the names) -/
 inductive Props
   | nil
@@ -215,6 +217,7 @@ def typeOf (fname : Str → Str) (vname : J → Str) : S → Ty
   | .nullable s => (typeOf fname vname s).withOption
   | .strNum f => .int f.range.1 f.range.2
   | .strFloat f32 => .float f32
+  | .strBytes => .vec (.int 0 255)
   | .obj ps addl =>
     let fs := fieldsOf fname vname ps []
     .struct fs (flatOf fname vname addl) (match addl with | .closed => true | _ => false) ps.anyDefault fs.anyOption
